@@ -16,7 +16,7 @@ REPO = "/repo"
 def patches_for(prop):
     out = []
     for f in sorted(glob.glob(os.path.join(VERIF, "mutants", prop, "*.diff"))):
-        out.append((os.path.basename(f)[:-5], f))
+        out.append((os.path.basename(f)[:-5], f, None))
     for meta in sorted(glob.glob(os.path.join(VERIF, "seeded", "*", "meta.json"))):
         try:
             m = json.load(open(meta))
@@ -26,7 +26,7 @@ def patches_for(prop):
             continue  # the change no longer breaks the property on the current tree (see meta.json)
         props = m.get("caught_by") or [m.get("property")]
         if prop in props:
-            out.append(("seeded/" + os.path.basename(os.path.dirname(meta)), os.path.join(os.path.dirname(meta), "patch.diff")))
+            out.append(("seeded/" + os.path.basename(os.path.dirname(meta)), os.path.join(os.path.dirname(meta), "patch.diff"), m.get("tier")))
     return out
 
 
@@ -62,8 +62,8 @@ def main(args, tier):
     only = args[1] if len(args) > 1 else None
     ok = True
     for prop in props:
-        for name, patch in patches_for(prop):
+        for name, patch, ptier in patches_for(prop):
             if only and only not in name:
                 continue
-            ok = run_one(prop, name, patch, tier) and ok
+            ok = run_one(prop, name, patch, ptier or tier) and ok  # a seed may name the tier that catches it (meta.json "tier")
     return 0 if ok else 1
